@@ -11,6 +11,7 @@ Patches
 * ``SymbolicMemoryView.__enter__/__exit__``, ``.cast("B")``, ``.tobytes``, ``__eq__``.
 * ``bytearray(int)``: symbolic-capable zero-filled buffer (bytes written into it stay symbolic).
 * ``str(buffer, encoding[, errors])`` on a symbolic buffer -> ``buffer.decode(...)``.
+* ``x in symbolic_bytes`` / ``symbolic_bytes.isspace()``: element-wise instead of realising the buffer.
 """
 
 from __future__ import annotations
@@ -97,6 +98,30 @@ def apply() -> None:
             return cpy
 
     SMV.toreadonly = _toreadonly
+
+    # `needle in symbolic_bytes` realises the whole buffer in CrossHair (AbcString.__contains__ -> self.data)
+    def _bytes_contains(self, other):
+        with NoTracing():
+            is_int = isinstance(other, (int, _b.SymbolicInt))
+        if is_int:
+            for b in self:
+                if b == other:
+                    return True
+            return False
+        if len(other) == 0:
+            return True
+        return self.find(other) >= 0
+
+    def _bytes_isspace(self):
+        if len(self) == 0:
+            return False
+        for b in self:
+            if not (b == 32 or (9 <= b and b <= 13)):
+                return False
+        return True
+
+    _b.BytesLike.__contains__ = _bytes_contains
+    _b.BytesLike.isspace = _bytes_isspace
 
     # bytearray(n:int) -> symbolic-capable zero filled buffer.  (Body of CrossHair's own _bytearray is
     # repeated here: a patch may only reach the real builtin from its *own* code object.)
